@@ -119,8 +119,17 @@ func ShieldProfile(seed int64, out *Recorder, nOps int) *Chain {
 			}
 		}
 	}
+	// an identity certificate whose content is not an address (the cert module accepts any text): whoever walks the certified
+	// identities must cope with it (own random stream, like every later addition to this generator)
+	if newRng(seed*17+1).Intn(3) == 0 {
+		msg := certtypes.NewMsgIssueCertificate(certtypes.AssembleContent("identity", "not-an-address"), "", "", "id", c.Accts[certifier].Addr)
+		c.Do(certifier, []D{{"t": "cert.issue", "kind": "identity", "content": "not-an-address", "certifier": Hex(c.Accts[certifier].Addr)}}, msg)
+	}
 	scenario := rng.Intn(9) // 0,1,2: a scripted opening (below); otherwise none
-	if scenario < 3 {
+	if scenario >= 3 && cfg.NVal >= 2 && newRng(seed*17+3).Intn(5) == 0 {
+		scenario = 3 // a claim whose payout cannot be made: the provider's validator double-signs while the claim is open
+	}
+	if scenario <= 3 {
 		for i := 0; i < cfg.NAcc; i++ { // every account a certified identity: the stake round of the scripted claim must reach quorum
 			msg := certtypes.NewMsgIssueCertificate(certtypes.AssembleContent("identity", c.Accts[i].Addr.String()), "", "", "id", c.Accts[certifier].Addr)
 			c.Do(certifier, []D{{"t": "cert.issue", "kind": "identity", "content": Hex(c.Accts[i].Addr), "certifier": Hex(c.Accts[certifier].Addr)}}, msg)
@@ -133,6 +142,7 @@ func ShieldProfile(seed int64, out *Recorder, nOps int) *Chain {
 	purchasers := []int{5, 6, 7, 8}
 	coin := func(a int64) sdk.Coins { return c.Coins(a, Bond) }
 	limitChoices := []int64{1000000000, 5000000, 0, 50000000000}
+	doubleSigned := false
 	for i := 0; i < nOps && c.Halted == ""; i++ {
 		// once in a while somebody tries to pay coins into the module's account through the VM (a call carrying value): the
 		// bank refuses plain sends to module accounts, and the books of this module rely on it (own random stream)
@@ -142,6 +152,23 @@ func ShieldProfile(seed int64, out *Recorder, nOps int) *Chain {
 			value := uint64(1 + r3.Intn(5000))
 			m := cvmtypes.NewMsgCall(c.Accts[from].Addr.String(), ma.String(), value, nil)
 			c.DoGas(from, 3000000, DefaultFee, []D{{"t": "cvm.call", "caller": Hex(c.Accts[from].Addr), "callee": Hex(ma), "kind": "none", "value": value, "data": "", "expect": "any"}}, nil, &m)
+		}
+		if r4 := newRng(seed*137 + int64(i)); r4.Intn(60) == 0 {
+			switch r4.Intn(3) {
+			case 0: // a validator double-signs (once per history, never the last one standing)
+				if !doubleSigned && cfg.NVal >= 2 {
+					doubleSigned = true
+					c.DoubleSign(r4.Intn(cfg.NVal))
+				}
+			case 1: // a hand-made message with a negative amount: only the message's own validation stands in its way
+				a := r4.Intn(cfg.NAcc)
+				neg := sdk.Coins{sdk.Coin{Denom: Bond, Amount: sdk.NewInt(-int64(1 + r4.Intn(1000000000)))}}
+				c.Do(a, []D{{"t": "shield.deposit", "from": Hex(c.Accts[a].Addr), "amt": neg[0].Amount.Int64()}}, shieldtypes.NewMsgDepositCollateral(c.Accts[a].Addr, neg))
+			default:
+				a := r4.Intn(cfg.NAcc)
+				neg := sdk.Coins{sdk.Coin{Denom: Bond, Amount: sdk.NewInt(-int64(1 + r4.Intn(1000000000)))}}
+				c.Do(a, []D{{"t": "shield.withdraw", "from": Hex(c.Accts[a].Addr), "amt": neg[0].Amount.Int64()}}, shieldtypes.NewMsgWithdrawCollateral(c.Accts[a].Addr, neg))
+			}
 		}
 		ctx := c.Ctx()
 		pools := sk.GetAllPools(ctx)
@@ -460,6 +487,9 @@ func shieldScenario(c *Chain, rng interface{ Intn(int) int }, kind int, sc Shiel
 	stake := cfg.ValStake[0]
 	jitter := func(x int64) int64 { return x + int64(rng.Intn(3)) - 1 }
 	collateral := []int64{400000000, stake * 9 / 10, 250000000}[rng.Intn(3)]
+	if kind == 3 {
+		collateral = stake * 9 / 10 // most of the stake: after the slash it cannot cover the payout
+	}
 	c.Do(prov, []D{{"t": "shield.deposit", "from": Hex(pa), "amt": collateral}}, shieldtypes.NewMsgDepositCollateral(pa, coin(collateral)))
 	c.Do(admin, []D{{"t": "shield.createPool", "from": Hex(c.Accts[admin].Addr), "shield": 1, "fees": 1000, "sponsor": "scn", "sponsorAddr": Hex(c.Accts[8].Addr), "limit": 50000000000}},
 		shieldtypes.NewMsgCreatePool(c.Accts[admin].Addr, coin(1), shieldtypes.MixedCoins{Native: coin(1000)}, "scn", c.Accts[8].Addr, "d", sdk.NewInt(50000000000)))
@@ -517,6 +547,9 @@ func shieldScenario(c *Chain, rng interface{ Intn(int) int }, kind int, sc Shiel
 		}
 		withdraw([]int64{10000000, 1, shield / 4}[rng.Intn(3)]) // fresh: matures after the lock of the coming claim ends
 		loss = []int64{shield, jitter(shield/2 + 1), shield - 1}[rng.Intn(3)]
+	case 3:
+		// nothing is withdrawn: the whole collateral stays behind the claim; the slash comes after the claim is filed (below)
+		loss = []int64{shield, shield - 1, jitter(shield * 9 / 10)}[rng.Intn(3)]
 	case 2:
 		other := cfg.NVal // an account with delegations of its own (see the opening of the profile)
 		val0 := sdk.ValAddress(c.Accts[0].Addr)
@@ -567,6 +600,9 @@ func shieldScenario(c *Chain, rng interface{ Intn(int) int }, kind int, sc Shiel
 		return true
 	}
 	pid := after[len(after)-1].ProposalId
+	if kind == 3 {
+		c.DoubleSign(prov) // the provider is validator 0's operator: more than half of its stake is gone at the next block
+	}
 	c.Vote(certifier, pid, sdkgovtypes.OptionYes)
 	if !c.Advance(time.Second) { // the certifier round is decided as soon as the threshold is met
 		return false
